@@ -183,4 +183,127 @@ theorem chain_sa {K : Kernel} {f : Filter} {p : Prec} (S Q : Nat → Plane → P
     | n + 3, h2 => simp at h2
   · exact hs
 
+/-! ### the straight-alpha step for the four invariants used in `Theorems/C16.lean` -/
+
+theorem mem_resizeAlphaSA {p : Prec} {ts : List Taps} {a : Plane} {v : Rat} (h : v ∈ resizeAlphaSA p ts a) :
+    ∃ t ∈ ts, v = saAlpha p (dot t a.at) := by
+  unfold resizeAlphaSA at h
+  obtain ⟨t, ht, rfl⟩ := List.mem_map.mp h
+  exact ⟨t, ht, rfl⟩
+
+theorem mem_resizeColourSA {p : Prec} {ts : List Taps} {c a : Plane} {v : Rat} (h : v ∈ resizeColourSA p ts c a) :
+    ∃ t ∈ ts, v = saColour p (dot t fun i => c.at i * a.at i) (dot t a.at) := by
+  unfold resizeColourSA at h
+  obtain ⟨t, ht, rfl⟩ := List.mem_map.mp h
+  exact ⟨t, ht, rfl⟩
+
+theorem length_resizeAlphaSA (p : Prec) (ts : List Taps) (a : Plane) : (resizeAlphaSA p ts a).length = ts.length := by
+  unfold resizeAlphaSA; rw [List.length_map]
+
+theorem length_resizeColourSA (p : Prec) (ts : List Taps) (c a : Plane) :
+    (resizeColourSA p ts c a).length = ts.length := by
+  unfold resizeColourSA; rw [List.length_map]
+
+/-- range invariant: alpha inside `[alo, ahi]`, colour of VISIBLE pixels (alpha > 0) inside `[lo, hi]` -/
+def QRange (alo ahi lo hi : Rat) (n : Nat) (x a : Plane) : Prop :=
+  x.length = n ∧ a.length = n ∧ (∀ v ∈ a, alo ≤ v ∧ v ≤ ahi) ∧
+    ∀ k, k < n → 0 < a.at k → lo ≤ x.at k ∧ x.at k ≤ hi
+
+theorem step_QRange (p : Prec) (alo ahi lo hi : Rat) (hga : p.Grid alo ahi) (h0 : 0 ≤ alo) (hg : p.Grid lo hi)
+    (ts : List Taps) (n m : Nat) (ok : TapsOK ts n m) (nn : ∀ t ∈ ts, t.NonNeg) (x a : Plane)
+    (h : QRange alo ahi lo hi n x a) :
+    QRange alo ahi lo hi m (resizeColourSA p ts x a) (resizeAlphaSA p ts a) := by
+  obtain ⟨hx, ha, hav, hxv⟩ := h
+  have ha0 : ∀ v ∈ a, 0 ≤ v := fun v hv => Rat.le_trans h0 (hav v hv).1
+  refine ⟨by rw [length_resizeColourSA, ok.len], by rw [length_resizeAlphaSA, ok.len], ?_, ?_⟩
+  · intro v hv
+    obtain ⟨t, ht, rfl⟩ := mem_resizeAlphaSA hv
+    have hb := dot_bounds t a.at alo ahi (nn t ht)
+      (fun iw hiw _ => hav _ (Plane.at_mem a iw.1 (by rw [ha]; exact ok.inRange t ht iw hiw)))
+    rw [ok.sum t ht] at hb
+    exact saAlpha_range p alo ahi hga h0 _ (by grind) (by grind)
+  · intro k hk hpos
+    have hk' : k < ts.length := by rw [ok.len]; exact hk
+    unfold resizeAlphaSA at hpos
+    rw [Plane.at_map ts _ k hk'] at hpos
+    unfold resizeColourSA
+    rw [Plane.at_map ts _ k hk']
+    have ht : ts[k] ∈ ts := List.getElem_mem hk'
+    obtain ⟨b1, b2⟩ := premul_bounds ts[k] n (ok.inRange _ ht) (nn _ ht) x a hx ha lo hi ha0 hxv
+    exact saColour_range p lo hi hg _ _ hpos b1 b2
+
+/-- constant invariant -/
+def QConst (cx ca : Rat) (n : Nat) (x a : Plane) : Prop :=
+  x.length = n ∧ a.length = n ∧ (∀ v ∈ a, v = ca) ∧ ∀ v ∈ x, v = cx
+
+theorem step_QConst (p : Prec) (cx ca : Rat) (hgx : p.Grid cx cx) (hga : p.Grid ca ca) (hpos : 0 < ca)
+    (ts : List Taps) (n m : Nat) (ok : TapsOK ts n m) (x a : Plane) (h : QConst cx ca n x a) :
+    QConst cx ca m (resizeColourSA p ts x a) (resizeAlphaSA p ts a) := by
+  obtain ⟨hx, ha, hav, hxv⟩ := h
+  have hA : ∀ t ∈ ts, dot t a.at = ca := by
+    intro t ht
+    rw [dot_const t a.at ca (fun iw hiw => hav _ (Plane.at_mem a iw.1 (by rw [ha]; exact ok.inRange t ht iw hiw))),
+      ok.sum t ht]
+    grind
+  have hC : ∀ t ∈ ts, dot t (fun i => x.at i * a.at i) = cx * ca := by
+    intro t ht
+    rw [dot_const t _ (cx * ca) (fun iw hiw => by
+      show x.at iw.1 * a.at iw.1 = cx * ca
+      rw [hav _ (Plane.at_mem a iw.1 (by rw [ha]; exact ok.inRange t ht iw hiw)),
+        hxv _ (Plane.at_mem x iw.1 (by rw [hx]; exact ok.inRange t ht iw hiw))]), ok.sum t ht]
+    grind
+  have hfix := saAlpha_fix p ca hga (Rat.le_of_lt hpos)
+  refine ⟨by rw [length_resizeColourSA, ok.len], by rw [length_resizeAlphaSA, ok.len], ?_, ?_⟩
+  · intro v hv
+    obtain ⟨t, ht, rfl⟩ := mem_resizeAlphaSA hv
+    rw [hA t ht]; exact hfix
+  · intro v hv
+    obtain ⟨t, ht, rfl⟩ := mem_resizeColourSA hv
+    rw [hA t ht, hC t ht]
+    obtain ⟨r1, r2⟩ := saColour_range p cx cx hgx (cx * ca) ca (by rw [hfix]; exact hpos) Rat.le_refl Rat.le_refl
+    exact Rat.le_antisymm r2 r1
+
+/-- fully transparent invariant (source: alpha all zero; generated: everything zero) -/
+def SZero (n : Nat) (x a : Plane) : Prop := x.length = n ∧ a.length = n ∧ ∀ v ∈ a, v = 0
+def QZero (n : Nat) (x a : Plane) : Prop := SZero n x a ∧ ∀ v ∈ x, v = 0
+
+theorem step_QZero (p : Prec) (ts : List Taps) (n m : Nat) (ok : TapsOK ts n m) (x a : Plane) (h : SZero n x a) :
+    QZero m (resizeColourSA p ts x a) (resizeAlphaSA p ts a) := by
+  obtain ⟨hx, ha, hav⟩ := h
+  have hA : ∀ t ∈ ts, dot t a.at = 0 := by
+    intro t ht
+    rw [dot_const t a.at 0 (fun iw hiw => hav _ (Plane.at_mem a iw.1 (by rw [ha]; exact ok.inRange t ht iw hiw)))]
+    grind
+  refine ⟨⟨by rw [length_resizeColourSA, ok.len], by rw [length_resizeAlphaSA, ok.len], ?_⟩, ?_⟩
+  · intro v hv
+    obtain ⟨t, ht, rfl⟩ := mem_resizeAlphaSA hv
+    rw [hA t ht]; exact saAlpha_zero p
+  · intro v hv
+    obtain ⟨t, ht, rfl⟩ := mem_resizeColourSA hv
+    rw [hA t ht]; exact saColour_zero p _
+
+theorem grid_max (p : Prec) : p.Grid p.maxVal p.maxVal := by
+  cases p
+  · exact Or.inr ⟨255, 255, by simp [Prec.maxVal], by simp [Prec.maxVal], Rat.le_refl⟩
+  · exact Or.inr ⟨65535, 65535, by simp [Prec.maxVal], by simp [Prec.maxVal], Rat.le_refl⟩
+  · exact Or.inl rfl
+
+theorem maxVal_pos (p : Prec) : 0 < p.maxVal := by
+  cases p <;> simp only [Prec.maxVal] <;> grind
+
+/-- opaque invariant -/
+def QOpaque (p : Prec) (n : Nat) (x a : Plane) : Prop := x.length = n ∧ a.length = n ∧ ∀ v ∈ a, v = p.maxVal
+
+theorem step_QOpaque (p : Prec) (ts : List Taps) (n m : Nat) (ok : TapsOK ts n m) (x a : Plane)
+    (h : QOpaque p n x a) : QOpaque p m (resizeColourSA p ts x a) (resizeAlphaSA p ts a) := by
+  obtain ⟨hx, ha, hav⟩ := h
+  refine ⟨by rw [length_resizeColourSA, ok.len], by rw [length_resizeAlphaSA, ok.len], ?_⟩
+  intro v hv
+  obtain ⟨t, ht, rfl⟩ := mem_resizeAlphaSA hv
+  rw [dot_const t a.at p.maxVal
+    (fun iw hiw => hav _ (Plane.at_mem a iw.1 (by rw [ha]; exact ok.inRange t ht iw hiw))), ok.sum t ht]
+  have : p.maxVal * 1 = p.maxVal := by grind
+  rw [this]
+  exact saAlpha_fix p p.maxVal (grid_max p) (Rat.le_of_lt (maxVal_pos p))
+
 end Dds.Mip
